@@ -139,6 +139,11 @@ def getOp : Bytes → Option (Nat × Bytes × Bytes)
       let n := declaredSize opc t
       if r.length < n then none else some (opc, r.take n, r.drop n)
 
+/-- the bytes of one operation: opcode byte, little-endian length field of the push form, payload -/
+def opEnc (opc : Nat) (d : Bytes) : Bytes :=
+  if opc > 0x4e then [UInt8.ofNat opc]
+  else UInt8.ofNat opc :: (leBytes (lenBytes opc) d.length ++ d)
+
 /-- a byte string that begins with a push opcode whose length field or payload is cut short -/
 def TruncatedPush (r : Bytes) : Prop :=
   ∃ b t, r = b :: t ∧ b.toNat ≤ 0x4e ∧
